@@ -123,3 +123,30 @@ package security
 //@   ensures implies(EncOK(AlgoID, Bearer, Direction, payload) && AlgoID == 2, forall(j, 0, len(payload), payload[j] == old(payload[j]) ^ spec.AESCTR(KnasEnc, spec.EEA2CounterBlock(Count, Bearer, Direction), j)))
 //@   ensures implies(EncOK(AlgoID, Bearer, Direction, payload) && AlgoID == 3, forall(j, 0, len(payload), payload[j] == old(payload[j]) ^ spec.EEA3KS(KnasEnc, Count, Bearer, Direction, j)))
 //@ end
+
+// ---- C07 / C08: integrity. ----
+
+//@ func mulx(V, c) (r)
+//@   inline
+//@   assigns nothing
+//@   ensures r == spec.MUL64x(V, c)
+//@ end
+
+//@ func mul(V, P, c) (r)
+//@   assigns nothing
+//@   specfuel 999
+//@   ensures r == spec.MUL64(V, P, c)
+//@ end
+
+//@ func NIA1(ik, countI, bearer, direction, msg, length) (mac, err)
+//@   requires length <= 8*uint64(len(msg)) && len(msg) < 0x10000000
+//@   assigns nothing
+//@   specfuel 999
+//@   opaque SnowKeystreamWord, MUL64
+//@   recursive EIA1Eval
+//@   loop 1 invariant D == (length+63)/64 + 1 && D >= 2 && i <= D-2
+//@   loop 1 invariant Eval == spec.EIA1Eval(P, msg, length, int(i))
+//@   loop 1 decreases int(D) - int(i)
+//@   ensures err == nil && len(mac) == 4 && fresh(mac)
+//@   ensures uint32(mac[0])<<24 | uint32(mac[1])<<16 | uint32(mac[2])<<8 | uint32(mac[3]) == spec.EIA1(ik, countI, bearer, direction, msg, length)
+//@ end
